@@ -80,6 +80,19 @@ Theorem C04_incomplete_exchange_refused : forall (H : string -> string) (cf : cf
 Proof. exact incomplete_exchange_refused. Qed.
 Print Assumptions C04_incomplete_exchange_refused.
 
+(* The registered auth method is an open string: besides the four values the library names a
+   registration may say "" (unset = client_secret_basic), client_secret_jwt, a case variant ...
+   (AM_Other).  Such a client is confidential: a successful exchange of its code presented no
+   assertion but the client's id and ITS SECRET (header or form), on either router. *)
+Theorem C04_other_method_needs_secret : forall (H : string -> string) (cf : cfg) ops h s,
+  exec H cf ops = (h, s) ->
+  forall h1 e h2 pl f cr c uri ver t q cl,
+    h = h1 ++ e :: h2 -> e_op e = TokenCode pl f cr (Some c) uri ver -> e_out e = OTokens t ->
+    code_req (e_pre e) c = Some q -> find_client cf (q_client q) = Some cl -> c_auth cl = AM_Other ->
+    cr_assert cr = None /\ cred_id_sec cr = (q_client q, c_secret cl).
+Proof. exact other_method_needs_secret. Qed.
+Print Assumptions C04_other_method_needs_secret.
+
 (* No code appears in two successful exchanges of one history - wherever the parameters
    travel (pl) and whichever storage call fails during either exchange (f). *)
 Theorem C04_single_use : forall (H : string -> string) (cf : cfg) ops h s,
